@@ -29,6 +29,7 @@ META = {
     "assumptions": ["model file system", "selectors range over the stated menus; integer tag values are concrete because node adjacency is "
                     "hashed"],
 }
+META["explanation"] += '  long/*: four chromosomes (two chains, a single bubble, a single segment) in four requested orders; (BO, NO) must be unique and strictly increasing, also across the per-chromosome files.'
 
 NODES = [("t0", "AAC", 0), ("r0", "GGT", 3), ("p0", "AC", 6), ("q0", "TTTT", None), ("r1", "CA", 8), ("u0", "G", 10)]
 STAGS = [[], ["xx:i:5", "yy:Z:hello"], ["zz:Z:a:b"]]
@@ -192,8 +193,8 @@ def bo_sorted(out):
             f = l.rstrip("\n").split("\t")
             bo = int(F.tagval(f[3:], "BO"))
             no = int(F.tagval(f[3:], "NO"))
-            if last is not None and (bo, no) < last:
-                return "S lines are not in (BO, NO) order"
+            if last is not None and (bo, no) <= last:
+                return "S lines are not in strictly increasing (BO, NO) order"
             last = (bo, no)
     return None
 
@@ -215,13 +216,31 @@ def check_csv(csv, out):
     return None
 
 
+LONG_ORDERS = ["chr1,chr2,chr3,chr4", "chr2,chr1,chr4,chr3", "chr3,chr1,chr4,chr2", "chr4,chr3,chr2,chr1"]
+
+
+def unique_bo_no(out):
+    seen = set()
+    for l in out:
+        if l.startswith("S"):
+            f = l.rstrip("\n").split("\t")
+            key = (F.tagval(f[3:], "BO"), F.tagval(f[3:], "NO"))
+            if key in seen:
+                return "two segments carry the same (BO, NO) = %r" % (key,)
+            seen.add(key)
+    return None
+
+
 def long_lines(variant, ws):
-    """two chromosomes, 17+ chain elements in total, so BO values cross the one/two digit boundary"""
+    """four chromosomes (two long chains, one that is a single bubble, one that is a single segment), 17+ chain elements in total, so BO
+    values cross the one/two digit boundary"""
     spec = F.Spec()
     F.build_chain(spec, "chr1", ["snp", "ins", "del"], tip_start=True, tip_end=True, naming=0)
     F.build_chain(spec, "chr2", ["inv", "two", "tri", "snp"], tip_start=True, tip_end=False, naming=1)
+    F.build_chain(spec, "chr3", ["snp"], tip_start=False, tip_end=False, naming=0)  # the whole chromosome is one bubble
+    F.build_chain(spec, "chr4", [], tip_start=False, tip_end=False, naming=0)  # a single segment
     so = {}
-    for c in ("chr1", "chr2"):
+    for c in ("chr1", "chr2", "chr3", "chr4"):
         so.update(F.so_layout(spec, c, [3 + (i % 4) for i in range(F.n_refs(spec, c))], 0))
     ids, links = F.orderings(spec, variant)
     return F.gfa_text(spec, so, ids, links, with_seq=True)
@@ -233,12 +252,12 @@ def build(params):
             O = F.M["O"]
             e = stubs.env()
             v = pick(variant, [0, 1, 2, 3])
-            req = pick(order, ["chr1,chr2", "chr2,chr1"])
+            req = pick(order, LONG_ORDERS)
             ws, by = bool(params["with_seq"]), bool(params["by_chrom"])
             lines = long_lines(v, ws)
             e.files["in.gfa"] = stubs.MFile("text", lines, None)
             O.run_order_gfa("in.gfa", "out", by, chromosome_order=req, with_sequence=ws)
-            names = ["out/in-chr1.gfa", "out/in-chr2.gfa"] if by else ["out/in-complete.gfa"]
+            names = ["out/in-%s.gfa" % c for c in req.split(",")] if by else ["out/in-complete.gfa"]
             got = []
             for nm in names:
                 if nm not in e.files:
@@ -251,9 +270,9 @@ def build(params):
                 if r:
                     return "%s: %s" % (nm, r)
                 got += out
-            return compare(lines, got, ws, True, sl_order=False)
+            return unique_bo_no(got) or compare(lines, got, ws, True, sl_order=False)
 
-        return Harness([("variant", "int"), ("order", "int")], ["0 <= variant <= 3 and 0 <= order <= 1"], case_long, fuel=3000)
+        return Harness([("variant", "int"), ("order", "int")], ["0 <= variant <= 3 and 0 <= order <= 3"], case_long, fuel=4000)
     style = params["style"]
     decl = params["decl"]
     if params.get("full"):
@@ -316,19 +335,19 @@ def replay(params, model, wd):
         open(p, "w").write("".join(lines))
         od = os.path.join(wd, "out")
         try:
-            O.run_order_gfa(p, od, by, chromosome_order=["chr1,chr2", "chr2,chr1"][oi], with_sequence=ws)
-            names = ["in-chr1.gfa", "in-chr2.gfa"] if by else ["in-complete.gfa"]
+            O.run_order_gfa(p, od, by, chromosome_order=LONG_ORDERS[oi], with_sequence=ws)
+            names = ["in-%s.gfa" % c for c in LONG_ORDERS[oi].split(",")] if by else ["in-complete.gfa"]
             got = []
             r = None
             for nm in names:
                 out = open(os.path.join(od, nm)).read().splitlines(True)
                 r = r or bo_sorted(out) or s_before_l(out) or check_csv(open(os.path.join(od, nm[:-4] + ".csv")).read().splitlines(True), out)
                 got += out
-            r = r or compare(lines, got, ws, True, sl_order=False)
+            r = r or unique_bo_no(got) or compare(lines, got, ws, True, sl_order=False)
         except BaseException as e:  # noqa
             return {"reproduced": True, "key": "C07:long:exception:%s" % type(e).__name__, "what": repr(e)}
         if r:
-            kind = "order" if "order" in r else "csv" if "CSV" in r else "content"
+            kind = "order" if "order" in r or "same (BO" in r else "csv" if "CSV" in r else "content"
             return {"reproduced": True, "key": "C07:long:%s" % kind, "what": r}
         return {"reproduced": False, "detail": "long chain output preserved and ordered"}
     decl = params["decl"]
